@@ -4,6 +4,8 @@ import (
 	"fmt"
 	"go/token"
 	"go/types"
+	"os"
+	"strings"
 
 	"golang.org/x/tools/go/ssa"
 )
@@ -231,6 +233,76 @@ func ruleUnsendCountdown(c *Ctx) {
 	}
 	c.inst(1)
 	c.check(dec > 0, fnName(fn), "un-sending counts the sent references of the children down", p.Pos(fn.Pos()), "decrement of the child's indirectsent present", "no count-down of the children's sent counts")
+	// the decrement happens for a child that is sent and counted: behind state == stateSent and indirectsent > 0
+	kSent := p.ConstInt("server.stateSent", -1)
+	nStates := p.ConstInt("server.stateDisposed", 0)
+	if k := p.ConstInt("server.stateDeleted", 0); k > nStates {
+		nStates = k
+	}
+	if kSent > nStates {
+		nStates = kSent
+	}
+	isSent := fieldCmpGuard(fState, nStates+1, func(v int64) bool { return v == kSent })
+	counted := fieldCmpGuard(fSent, 4, func(v int64) bool { return v > 0 })
+	for _, g := range fns {
+		for _, in := range instrsOf(g) {
+			st, ok := in.(*ssa.Store)
+			if !ok {
+				continue
+			}
+			fa, ok := st.Addr.(*ssa.FieldAddr)
+			if !ok || fieldOfAddr(fa) != fSent {
+				continue
+			}
+			b, ok := st.Val.(*ssa.BinOp)
+			if !ok || b.Op != token.SUB {
+				if k, isK := constInt(st.Val); isK && k == 0 {
+					continue
+				}
+				continue
+			}
+			c.inst(1)
+			g1, g2 := p.guardedBy(st, isSent), p.guardedBy(st, counted)
+			bad := ""
+			if g1 == nil {
+				bad = "the decrement does not lie behind state == stateSent: a child that was never delivered has its count lowered"
+			} else if g2 == nil {
+				bad = "the decrement does not lie behind indirectsent > 0: the count goes negative"
+			}
+			c.check(bad == "", fnName(g), "the sent count of a child goes down only if the child is sent and counted", p.InstrPos(st), "behind state == stateSent and indirectsent > 0", bad)
+		}
+	}
+	// the un-sent subscription itself is ready again and counts no sent reference
+	{
+		c.inst(1)
+		zero, ready := false, false
+		kReady := p.ConstInt("server.stateReady", -1)
+		for _, in := range instrsOf(fn) {
+			st, ok := in.(*ssa.Store)
+			if !ok || len(fn.Params) == 0 {
+				continue
+			}
+			fa, ok := st.Addr.(*ssa.FieldAddr)
+			if !ok || fa.X != ssa.Value(fn.Params[0]) || st.Block() != fn.Blocks[0] {
+				continue
+			}
+			if k, isK := constInt(st.Val); isK {
+				if fieldOfAddr(fa) == fSent && k == 0 {
+					zero = true
+				}
+				if fieldOfAddr(fa) == fState && k == kReady {
+					ready = true
+				}
+			}
+		}
+		bad := ""
+		if !zero {
+			bad = "indirectsent of the un-sent subscription is not reset: it is taken for delivered by the next resource set that references it, and left out"
+		} else if !ready {
+			bad = "the un-sent subscription is not made ready again"
+		}
+		c.check(bad == "", fnName(fn), "an un-sent subscription is ready again and counts no sent reference", p.Pos(fn.Pos()), "state = stateReady and indirectsent = 0 stored unconditionally", bad)
+	}
 	fieldsOf := func(v ssa.Value, depth int, out map[*types.Var]bool) { condFields(p, v, depth, out) }
 	for _, g := range fns {
 		for _, in := range instrsOf(g) {
@@ -326,6 +398,65 @@ func ruleQueueFlagWhole(c *Ctx) {
 			}
 		}
 	}
+	// the drain (unqueueEvents) gives up early only because a reason holds the gate: every return other than
+	// the one after the event loop lies on the true edge of `queueFlag != 0`; and every start of a re-check
+	// (handleReaccess) lies behind `queueFlag == 0`
+	closed := fieldCmpGuard(f, 4, func(v int64) bool { return v != 0 })
+	open := fieldCmpGuard(f, 4, func(v int64) bool { return v == 0 })
+	if fn := p.Fn("(*server.Subscription).unqueueEvents"); fn != nil {
+		for _, g := range p.withNewHelpers(fn) {
+			if g.Parent() != nil {
+				continue
+			}
+			for _, in := range instrsOf(g) {
+				r, ok := in.(*ssa.Return)
+				if !ok {
+					continue
+				}
+				// the return after the loop: dominated by a loop header, but by no block of that loop's body
+				after := false
+				for _, h := range g.Blocks {
+					body := loopBody(h)
+					if len(body) == 0 || !h.Dominates(r.Block()) || body[r.Block()] {
+						continue
+					}
+					inLoop := false
+					for b := range body {
+						if b != h && b.Dominates(r.Block()) {
+							inLoop = true
+						}
+					}
+					if !inLoop {
+						after = true
+					}
+				}
+				if after {
+					continue
+				}
+				if g != fn && len(g.Blocks) == 1 {
+					continue // a straight-line helper
+				}
+				c.inst(1)
+				c.check(p.guardedByOpt(r, closed, false) != nil, fnName(g), "the drain of held-back events stops early only while a reason holds the gate", p.InstrPos(r), "early return under queueFlag != 0",
+					"the drain returns on a path that has not found a hold-back reason set: the held-back events (and a deferred re-access) stay in the queue with the gate open — nothing delivers them later")
+			}
+		}
+	}
+	if hr := p.Fn("(*server.Subscription).handleReaccess"); hr != nil {
+		for _, g := range p.Repo {
+			if !inScopePkgs(g, "server") {
+				continue
+			}
+			for _, call := range callsIn(g) {
+				if call.Common().StaticCallee() != hr {
+					continue
+				}
+				c.inst(1)
+				c.check(p.guardedBy(call, open) != nil, fnName(g), "a re-check of access starts only when no reason holds events back", p.InstrPos(call), "handleReaccess under queueFlag == 0",
+					"a re-check starts while events are held back: its own hold-back reason is lifted by the earlier one's completion (or the other way round), and events pass before the new verdict")
+			}
+		}
+	}
 }
 
 // condFields collects the struct fields a condition reads, looking through
@@ -349,6 +480,9 @@ func condFields(p *Prog, v ssa.Value, depth int, out map[*types.Var]bool) {
 			condFields(p, e, depth+1, out)
 		}
 	case *ssa.Call:
+		for _, a := range x.Call.Args {
+			condFields(p, a, depth+1, out) // a predicate over a value read from a field (`rs.state.isLoaded()`)
+		}
 		if sf := x.Call.StaticCallee(); sf != nil && p.isRepoFn(sf) && len(sf.Blocks) > 0 {
 			for _, in := range instrsOf(sf) {
 				if i, ok := in.(*ssa.If); ok {
@@ -457,7 +591,7 @@ func ruleLoopIndex(c *Ctx) {
 			}
 			n++
 			c.inst(1)
-			if fn.Name() == "UnmarshalJSON" && fn.Signature.Recv() != nil {
+			if unmarshalerOnly(p, fn, 0) {
 				c.ok(fnName(fn), "an element at the position of a loop counter is read behind a test of the counter", p.InstrPos(in), "exception: encoding/json hands an Unmarshaler one complete JSON value, which has a non-blank byte")
 				continue
 			}
@@ -878,6 +1012,22 @@ func ruleThrottleThrough(c *Ctx) {
 					out := map[string]bool{}
 					leaves(a, 0, map[ssa.Value]bool{}, out)
 					bad := ""
+					// nil handed on where the throttle received is known to be nil is the throttle received
+					knownNil := p.guardedBy(call, func(i *ssa.If) (bool, bool) {
+						for _, d := range []bool{true, false} {
+							if x, nn, ok := nilTest(i, d); ok && !nn && isTh(x.Type()) {
+								lv := map[string]bool{}
+								leaves(x, 0, map[ssa.Value]bool{}, lv)
+								if lv["param"] && !lv["nil"] {
+									return d, true
+								}
+							}
+						}
+						return false, false
+					}) != nil
+					if knownNil && out["nil"] {
+						delete(out, "nil")
+					}
 					if out["nil"] && (out["param"] || out["field"]) {
 						bad = "on some path nil is handed on instead of the throttle the function was given"
 					} else if out["nil"] && !out["new"] {
@@ -893,4 +1043,502 @@ func ruleThrottleThrough(c *Ctx) {
 	if n == 0 {
 		c.viol("rescache.Throttle", "the throttle a function is given governs the requests it causes", "-", "no site hands a throttle on: anchor lost")
 	}
+}
+
+// ---------------------------------------------------------------------------
+// TWIN/agree (C02, C01): sibling implementations of one step agree. The pairs
+// below differ by design in one thing only (the encoding they put into the
+// resource set); everything else — which tests are made, which counts and
+// states are written, which children are visited — must be the same on every
+// path. The repository's suite exercises the legacy twin with a handful of
+// tests, so a change to one of them that the other does not get passes it.
+// Decided by abstracting every full path of each twin to its set of decisions
+// (facts over protocol state) and its set of effects, and comparing the two
+// sets of paths after the designed difference is renamed away. Nothing is run.
+var twinTable = []struct{ a, b, what string }{
+	{"(*server.Subscription).populateResources", "(*server.Subscription).populateResourcesLegacy", "placing a subscription and its references into a resource set"},
+	{"(*rescache.EventSubscription).handleResetResource", "(*rescache.EventSubscription).handleResetAccess", "visiting the base resource (unless it is a link) and every query variant of an entry once"},
+}
+
+func twinNormalise(s string) string {
+	for _, r := range [][2]string{{"populateResourcesLegacy", "populateResources"}, {"Legacy120Collection", "Collection"}, {"Legacy120Model", "Model"}, {"Legacy120Value", "Value"}, {"Legacy", ""}, {"handleResetAccess", "handleResetResource"}} {
+		s = strings.ReplaceAll(s, r[0], r[1])
+	}
+	return s
+}
+
+func ruleTwinAgree(c *Ctx) {
+	p := c.P
+	ec := newEffCtx(p, true)
+	for _, tw := range twinTable {
+		fa, fb := p.fnNoRole(tw.a), p.fnNoRole(tw.b)
+		if fa == nil || fb == nil || fa == fb {
+			c.note("twin " + tw.b + " is gone (merged): nothing to compare")
+			continue
+		}
+		c.inst(1)
+		pa, whyA := ec.paths(fa)
+		pb, whyB := ec.paths(fb)
+		if whyA != "" || whyB != "" {
+			c.undecided(fnName(fa), "sibling implementations agree: "+tw.what, p.Pos(fa.Pos()), whyA+whyB)
+			continue
+		}
+		key := func(e effPath) string {
+			return twinNormalise(strings.Join(e.facts, " & ") + "  =>  " + strings.Join(e.effects, ", "))
+		}
+		sa, sb := map[string]bool{}, map[string]bool{}
+		for _, e := range pa {
+			sa[key(e)] = true
+		}
+		for _, e := range pb {
+			sb[key(e)] = true
+		}
+		bad := ""
+		for k := range sa {
+			if !sb[k] {
+				bad = "only " + fnName(fa) + " has the path [" + k + "]"
+			}
+		}
+		for k := range sb {
+			if !sa[k] {
+				bad = "only " + fnName(fb) + " has the path [" + k + "]"
+			}
+		}
+		if os.Getenv("RV_DEBUG") == "twin" {
+			for k := range sa {
+				fmt.Println("A:", k)
+			}
+			for k := range sb {
+				fmt.Println("B:", k)
+			}
+		}
+		c.check(bad == "", fnName(fb), "sibling implementations agree: "+tw.what, p.Pos(fb.Pos()), fmt.Sprintf("%d and %d abstract paths, equal", len(sa), len(sb)),
+			"the twins differ beyond their encoding: "+bad+" — clients of one protocol version get a resource set (or reference counts) the other version's clients do not")
+	}
+}
+
+// ---------------------------------------------------------------------------
+// DOM/gc-unsend (C02, C01): the collector's decisions about sent-ness.
+//  (a) A node that is kept is marked "unsend" exactly when the released root was
+//      sent to the client AND no sent reference to the node remains after the
+//      count-down; with either half missing a node the client still holds is
+//      un-sent (it is delivered a second time later, its events stop), or a node
+//      the client dropped stays "sent" (a later resource set leaves it out).
+//  (b) The mark phase starts only when the root is to go (no holder left) or is to
+//      be un-sent (sent, no sent reference left). For a root that stays as it is
+//      the walk would see its children with their counts already lowered and
+//      un-send children the client still holds through the root.
+func ruleGCUnsend(c *Ctx) {
+	p := c.P
+	fn := p.Fn("(*server.wsConn).tryDelete")
+	trav := p.Method("server.Subscription.traverse")
+	isSentM := p.Method("server.Subscription.IsSent")
+	gcT := p.Named("server.gcState")
+	kKeep, kUnsend, kDelete := p.ConstInt("server.gcStateKeep", -1), p.ConstInt("server.gcStateUnsend", -1), p.ConstInt("server.gcStateDelete", -1)
+	if fn == nil || trav == nil || gcT == nil || kKeep < 0 || kUnsend < 0 {
+		c.undecided("(*server.wsConn).tryDelete", "anchor", "-", "not found")
+		return
+	}
+	holders, sents := gcRecordFields(p, fn)
+	sfInd := p.Field("server.Subscription.indirect")
+	sfSent := p.Field("server.Subscription.indirectsent")
+	isMark := func(f *types.Var) bool { return f != nil && types.Identical(f.Type(), gcT) }
+	// does v stand for "the root was sent"?
+	var wasSent func(v ssa.Value, depth int) bool
+	wasSent = func(v ssa.Value, depth int) bool {
+		if depth > 6 || v == nil {
+			return false
+		}
+		switch x := v.(type) {
+		case *ssa.Call:
+			return calleeFunc(&x.Call) == isSentM && isSentM != nil
+		case *ssa.Parameter:
+			// handed down to an extracted helper: every caller passes the sent-ness
+			n := p.CG.Nodes[x.Parent()]
+			idx := -1
+			for i, prm := range x.Parent().Params {
+				if prm == x {
+					idx = i
+				}
+			}
+			if n == nil || idx < 0 || len(n.In) == 0 {
+				return false
+			}
+			for _, e := range n.In {
+				if e.Site == nil || idx >= len(callArgs(e.Site.Common())) || !wasSent(callArgs(e.Site.Common())[idx], depth+1) {
+					return false
+				}
+			}
+			return true
+		case *ssa.Extract:
+			if cl, ok := x.Tuple.(*ssa.Call); ok {
+				if sf := cl.Call.StaticCallee(); sf != nil && p.isRepoFn(sf) {
+					for _, in := range instrsOf(sf) {
+						if r, ok := in.(*ssa.Return); ok && x.Index < len(r.Results) && !wasSent(r.Results[x.Index], depth+1) {
+							return false
+						}
+					}
+					return true
+				}
+			}
+		case *ssa.UnOp:
+			if x.Op != token.MUL {
+				return false
+			}
+			cell := x.X
+			if fv, ok := cell.(*ssa.FreeVar); ok {
+				if mc := p.parent[fv.Parent()]; mc != nil {
+					for i, f2 := range fv.Parent().FreeVars {
+						if f2 == fv {
+							cell = mc.Bindings[i]
+						}
+					}
+				}
+			}
+			if al, ok := cell.(*ssa.Alloc); ok && al.Referrers() != nil {
+				n := 0
+				for _, r := range *al.Referrers() {
+					if st, ok := r.(*ssa.Store); ok && st.Addr == ssa.Value(al) {
+						n++
+						if !wasSent(st.Val, depth+1) {
+							return false
+						}
+					}
+				}
+				return n > 0
+			}
+		}
+		return false
+	}
+	branch := func(rootMode bool) func(t *Tracer, fr *Frame, i *ssa.If, dir bool) []Ev {
+		return func(t *Tracer, fr *Frame, i *ssa.If, dir bool) []Ev {
+			cond, d := ssa.Value(i.Cond), dir
+			if u, ok := cond.(*ssa.UnOp); ok && u.Op == token.NOT {
+				cond, d = u.X, !d
+			}
+			if wasSent(cond, 0) || wasSent(t.Resolve(fr, cond).V, 0) {
+				if d {
+					return []Ev{{Kind: "was-sent"}}
+				}
+				return []Ev{{Kind: "not-sent"}}
+			}
+			x, op, k, ok := cmpConst(cond)
+			if !ok {
+				return nil
+			}
+			f, _ := fieldLoad(x)
+			if f == nil {
+				f, _ = fieldLoad(t.Resolve(fr, x).V)
+			}
+			if f == nil {
+				return nil
+			}
+			set := satisfying(op, k, d, 4)
+			switch {
+			case sents[f] || (rootMode && f == sfSent):
+				if len(set) == 1 && set[0] {
+					return []Ev{{Kind: "sent-zero"}}
+				}
+				if !set[0] {
+					return []Ev{{Kind: "sent-left"}}
+				}
+			case holders[f] || (rootMode && f == sfInd):
+				if len(set) == 1 && set[0] {
+					return []Ev{{Kind: "free"}}
+				}
+				if !set[0] {
+					return []Ev{{Kind: "held"}}
+				}
+			}
+			return nil
+		}
+	}
+	// (a) the mark visitor
+	nVis := 0
+	for _, g := range p.withHelpers(fn) {
+		for _, call := range callsIn(g) {
+			if _, ok := isCallTo(call, trav); !ok {
+				continue
+			}
+			args := callArgs(call.Common())
+			mc, ok := stripConv(args[len(args)-1]).(*ssa.MakeClosure)
+			if !ok {
+				continue
+			}
+			v := mc.Fn.(*ssa.Function)
+			if v.Synthetic != "" {
+				if m := boundMethod(v); m != nil {
+					if mf := p.SSA.FuncValue(m); mf != nil && len(mf.Blocks) > 0 {
+						v = mf
+					}
+				}
+			}
+			marks := false
+			for _, h := range p.withHelpers(v) {
+				for _, in := range instrsOf(h) {
+					if st, ok := in.(*ssa.Store); ok {
+						if fa, ok := st.Addr.(*ssa.FieldAddr); ok && isMark(fieldOfAddr(fa)) {
+							if k, isC := constInt(st.Val); isC && (k == kKeep || k == kUnsend) {
+								marks = true
+							}
+						}
+					}
+				}
+			}
+			if !marks {
+				continue
+			}
+			nVis++
+			c.inst(1)
+			sp := &Spec{InlineHelpers: true}
+			sp.Branch = branch(false)
+			sp.Classify = func(t *Tracer, fr *Frame, in ssa.Instruction) []Ev {
+				if st, ok := in.(*ssa.Store); ok {
+					if fa, ok := st.Addr.(*ssa.FieldAddr); ok && isMark(fieldOfAddr(fa)) {
+						if k, isC := constInt(t.Resolve(fr, st.Val).V); isC {
+							return []Ev{{Kind: fmt.Sprintf("mark=%d", k)}}
+						}
+					}
+				}
+				return nil
+			}
+			tr := runTrace(p, v, sp)
+			bad := ""
+			nUnsend := 0
+			for _, path := range tr.Paths {
+				if hasKind(path, fmt.Sprintf("mark=%d", kUnsend)) {
+					nUnsend++
+					if !hasKind(path, "was-sent") || !hasKind(path, "sent-zero") {
+						bad = "a node is marked for un-sending on a path that has not established both that the root was sent and that no sent reference to the node remains: " + tr.FmtPath(path)
+					}
+				}
+				if hasKind(path, fmt.Sprintf("mark=%d", kKeep)) && !hasKind(path, "not-sent") && !hasKind(path, "sent-left") {
+					bad = "a node is marked plainly kept on a path that has not established that the root was not sent or that a sent reference remains: a node the client dropped stays 'sent' and is left out of a later resource set: " + tr.FmtPath(path)
+				}
+			}
+			if nUnsend == 0 {
+				bad = "no path marks a node for un-sending"
+			}
+			if tr.Trunc {
+				bad = "path budget exhausted"
+			}
+			c.check(bad == "", fnName(v), "a kept node is un-sent exactly when the root was sent and no sent reference to it remains", p.Pos(v.Pos()), fmt.Sprintf("%d paths, %d un-sending", len(tr.Paths), nUnsend), bad)
+		}
+	}
+	if nVis == 0 {
+		c.viol(fnName(fn), "mark visitor of the collector found", p.Pos(fn.Pos()), "no traverse visitor stores a keep mark")
+		return
+	}
+	// (b) the mark phase is entered only for a root that goes or is un-sent
+	{
+		c.inst(1)
+		sp := &Spec{InlineHelpers: true, NoCombs: true}
+		sp.Branch = branch(true)
+		sp.Classify = func(t *Tracer, fr *Frame, in ssa.Instruction) []Ev {
+			if call, ok := isCallTo(in, trav); ok {
+				args := callArgs(call.Common())
+				if len(args) >= 2 {
+					if k, isC := constInt(t.Resolve(fr, args[1]).V); isC && k == kDelete {
+						return []Ev{{Kind: "mark-phase", Stop: true}}
+					}
+				}
+				return []Ev{{Kind: "count-down", Stop: true}}
+			}
+			return nil
+		}
+		tr := runTrace(p, fn, sp)
+		bad := ""
+		nMark := 0
+		for _, path := range tr.Paths {
+			i := indexKind(path, "mark-phase")
+			if i < 0 {
+				continue
+			}
+			nMark++
+			j := indexKind(path, "count-down")
+			pre := path[:i]
+			if j >= 0 && j < i {
+				pre = path[j:i]
+			}
+			if !hasKind(pre, "free") && !(hasKind(pre, "was-sent") && hasKind(pre, "sent-zero")) {
+				bad = "the mark phase starts on a path that has established neither that the root has no holder left nor that it was sent with no sent reference left: children the client still holds through the root are un-sent: " + tr.FmtPath(path)
+			}
+		}
+		if nMark == 0 {
+			bad = "no path reaches the mark phase"
+		}
+		if tr.Trunc {
+			bad = "path budget exhausted"
+		}
+		c.check(bad == "", fnName(fn), "the mark phase starts only for a root that goes or is un-sent", p.Pos(fn.Pos()), fmt.Sprintf("%d paths reach the mark phase", nMark), bad)
+	}
+}
+
+// unmarshalerOnly: fn is an UnmarshalJSON method, or a helper that did not exist
+// on the reference tree and is called from such methods only.
+func unmarshalerOnly(p *Prog, fn *ssa.Function, depth int) bool {
+	fn = TopLevel(fn)
+	if fn.Name() == "UnmarshalJSON" && fn.Signature.Recv() != nil {
+		return true
+	}
+	if depth > 3 || p.onReferenceTree(fn) {
+		return false
+	}
+	n := p.CG.Nodes[fn]
+	if n == nil || len(n.In) == 0 {
+		return false
+	}
+	for _, e := range n.In {
+		if e.Caller == nil || e.Caller.Func == nil || !unmarshalerOnly(p, e.Caller.Func, depth+1) {
+			return false
+		}
+	}
+	return true
+}
+
+// ---------------------------------------------------------------------------
+// DOM/remove-count-held (C08): removeCount lowers the counts of a subscription
+// only when the subscription has a holder at all (direct + indirect +
+// indirectsent != 0). A release that arrives for a subscription already let go
+// (both a delete event and the client's unsubscribe, a late error path) must
+// not drive a count negative: the next subscribe of that resource would start
+// from -1 and could never be released.
+func ruleRemoveCountHeld(c *Ctx) {
+	p := c.P
+	fn := p.Fn("(*server.wsConn).removeCount")
+	fs := []*types.Var{p.Field("server.Subscription.direct"), p.Field("server.Subscription.indirect"), p.Field("server.Subscription.indirectsent")}
+	if fn == nil || fs[0] == nil || fs[1] == nil || fs[2] == nil {
+		c.undecided("(*server.wsConn).removeCount", "anchor", "-", "not found")
+		return
+	}
+	anyHolder := func(i *ssa.If) (bool, bool) {
+		x, op, k, ok := cmpConst(i.Cond)
+		if !ok || k != 0 {
+			return false, false
+		}
+		got := map[*types.Var]bool{}
+		condFields(p, x, 0, got)
+		if !got[fs[0]] || !got[fs[1]] || !got[fs[2]] {
+			return false, false
+		}
+		switch op {
+		case token.EQL, token.LEQ:
+			return false, true
+		case token.NEQ, token.GTR:
+			return true, true
+		}
+		return false, false
+	}
+	n := 0
+	for _, g := range p.withNewHelpers(fn) {
+		for _, in := range instrsOf(g) {
+			st, ok := in.(*ssa.Store)
+			if !ok {
+				continue
+			}
+			fa, ok := st.Addr.(*ssa.FieldAddr)
+			if !ok {
+				continue
+			}
+			f := fieldOfAddr(fa)
+			if f != fs[0] && f != fs[1] && f != fs[2] {
+				continue
+			}
+			n++
+			c.inst(1)
+			c.check(p.guardedBy(st, anyHolder) != nil, fnName(g), "a count of a subscription is lowered only while the subscription has a holder", p.InstrPos(st), "behind direct+indirect+indirectsent != 0",
+				"Subscription."+f.Name()+" is lowered on a path that has not established that the subscription has any holder: a release for a subscription already let go drives the count negative")
+		}
+	}
+	if n == 0 {
+		c.viol(fnName(fn), "a count of a subscription is lowered only while the subscription has a holder", p.Pos(fn.Pos()), "removeCount lowers no count: anchor lost")
+	}
+}
+
+// ---------------------------------------------------------------------------
+// DOM/diff-drops-equal (C12): the model diff of a re-fetch removes from the new
+// property set every property whose value equals the cached one (behind the
+// lookup's ok and Value.Equal), and produces no event when nothing is left.
+// Decided: that the removal exists, lies behind both tests, and that the empty
+// case returns before an event is built. Not decided: Value.Equal itself.
+func ruleDiffDropsEqual(c *Ctx) {
+	p := c.P
+	fn := p.Fn("(*rescache.ResourceSubscription).processResetModel")
+	equal := p.Method("codec.Value.Equal")
+	if fn == nil || equal == nil {
+		c.undecided("(*rescache.ResourceSubscription).processResetModel", "anchor", "-", "not found")
+		return
+	}
+	isEqual := func(i *ssa.If) (bool, bool) {
+		v, neg := ssa.Value(i.Cond), false
+		if u, ok := v.(*ssa.UnOp); ok && u.Op == token.NOT {
+			v, neg = u.X, true
+		}
+		if cl, ok := v.(*ssa.Call); ok && calleeFunc(&cl.Call) == equal {
+			return !neg, true
+		}
+		return false, false
+	}
+	found := func(i *ssa.If) (bool, bool) {
+		v, neg := ssa.Value(i.Cond), false
+		if u, ok := v.(*ssa.UnOp); ok && u.Op == token.NOT {
+			v, neg = u.X, true
+		}
+		if isLookupOK(p, v, 0) {
+			return !neg, true
+		}
+		return false, false
+	}
+	nDel := 0
+	var encode ssa.Instruction
+	for _, g := range p.withNewHelpers(fn) {
+		for _, in := range instrsOf(g) {
+			if _, ok := isBuiltinCall(in, "delete"); ok {
+				call := in
+				nDel++
+				c.inst(1)
+				bad := ""
+				if p.guardedBy(call, isEqual) == nil {
+					bad = "a property is removed from the new set on a path that has not found it equal to the cached value: a changed property is dropped from the change event, cache and clients keep the old value"
+				} else if p.guardedBy(call, found) == nil {
+					bad = "a property is compared with a cached value that was not found (the zero Value)"
+				}
+				c.check(bad == "", fnName(g), "a re-fetched property is dropped from the diff only when the cached value was found and is equal", p.InstrPos(call), "delete behind ok and Value.Equal", bad)
+			}
+			if call, ok := in.(ssa.CallInstruction); ok {
+				if m := calleeFunc(call.Common()); m != nil && m.Name() == "EncodeChangeEvent" {
+					encode = in
+				}
+			}
+		}
+	}
+	c.inst(1)
+	c.check(nDel > 0, fnName(fn), "unchanged properties of a re-fetched model are dropped from the diff", p.Pos(fn.Pos()), fmt.Sprintf("%d removal site(s)", nDel),
+		"no property is ever removed from the new set: every re-fetch of a model sends a change event with all its properties, changed or not")
+	if encode != nil {
+		c.inst(1)
+		nonEmpty := func(i *ssa.If) (bool, bool) {
+			x, op, k, ok := cmpConst(i.Cond)
+			if !ok || k != 0 {
+				return false, false
+			}
+			if cl, ok := x.(*ssa.Call); !ok || !isBuiltinNamed(cl, "len") {
+				return false, false
+			}
+			switch op {
+			case token.EQL, token.LEQ:
+				return false, true
+			case token.NEQ, token.GTR:
+				return true, true
+			}
+			return false, false
+		}
+		c.check(p.guardedBy(encode, nonEmpty) != nil, fnName(encode.Parent()), "an empty diff produces no event", p.InstrPos(encode), "event built behind len(props) != 0",
+			"a change event is built although no property differs: a reset of an unchanged model sends an (empty) change event to every subscriber")
+	}
+}
+
+func isBuiltinNamed(cl *ssa.Call, name string) bool {
+	b, ok := cl.Call.Value.(*ssa.Builtin)
+	return ok && b.Name() == name
 }
